@@ -210,6 +210,11 @@ func (w *identWalker) wraps(fn *ssa.Function, e errIdent, depth int, seen map[*s
 				out = append(out, w.wraps(callee, e, depth+1, seen)...)
 				// a module function that takes an error and returns a new one is a wrapper too
 			}
+			// a module function that is handed the error decides by its body: passing the parameter on (or
+			// replacing it by an unrelated value) is not wrapping; building a new error FROM it is
+			if !isCtor && callee != nil && callee.Blocks != nil && !buildsErrorFromParam(callee, 0) {
+				continue
+			}
 			if isCtor || callee != nil {
 				var from []*ssa.Call
 				for _, a := range c.Call.Args {
@@ -321,4 +326,66 @@ func storedInto(v ssa.Value) []ssa.Value {
 		}
 	}
 	return out
+}
+
+// buildsErrorFromParam: some error return of fn is the result of a body-less constructor
+// (fmt.Errorf, errors.Wrap, ...) one of whose arguments derives from an error parameter of fn.
+func buildsErrorFromParam(fn *ssa.Function, depth int) bool {
+	if depth > 3 {
+		return false
+	}
+	var derives func(v ssa.Value, d int) bool
+	derives = func(v ssa.Value, d int) bool {
+		if d > 6 || v == nil {
+			return false
+		}
+		switch x := v.(type) {
+		case *ssa.Parameter:
+			return isErrorTyped(x)
+		case *ssa.MakeInterface:
+			return derives(x.X, d+1)
+		case *ssa.ChangeInterface:
+			return derives(x.X, d+1)
+		case *ssa.Phi:
+			for _, e := range x.Edges {
+				if derives(e, d+1) {
+					return true
+				}
+			}
+		case *ssa.Slice:
+			for _, a := range varargValues(x) {
+				if derives(a, d+1) {
+					return true
+				}
+			}
+		case *ssa.Call:
+			if x.Call.IsInvoke() && derives(x.Call.Value, d+1) {
+				return true // err.Error()
+			}
+		}
+		if vals := storedInto(v); vals != nil {
+			for _, e := range vals {
+				if derives(e, d+1) {
+					return true
+				}
+			}
+		}
+		return false
+	}
+	for _, v := range errReturnValues(fn) {
+		c := errSource(v)
+		if c == nil {
+			continue
+		}
+		callee := c.Call.StaticCallee()
+		if callee != nil && callee.Blocks != nil {
+			continue // another module function: its own body decides when it is looked at
+		}
+		for _, a := range c.Call.Args {
+			if derives(a, 0) {
+				return true
+			}
+		}
+	}
+	return false
 }
